@@ -233,6 +233,9 @@ AdminStep == \/ \E t \in Topics : CreateTopic(t) \/ DeleteTopic(t)
 
 Next == Tick \/ AdminStep \/ \E p \in Producers : PeerStep(p)
 Spec == Init /\ [][Next]_vars
+\* the untimed regime (thresholds out of reach, the clock stands still)
+NextUntimed == AdminStep \/ \E p \in Producers : PeerStep(p)
+SpecUntimed == Init /\ [][NextUntimed]_vars
 
 ---------------------------------------------------------------------------
 (* structure *)
